@@ -315,6 +315,28 @@ impl Driver for C15 {
                     continue;
                 }
             };
+            // a float solver cannot be judged against an exact answer that lives at astronomically large
+            // values or on a ray whose slope is at rounding level (-0.3 is not exactly -3/10)
+            let huge = |x: &Vec<Q>| x.iter().any(|v| v.abs() > qi(1_000_000));
+            match &truth {
+                LpAnswer::Optimal { x, .. } | LpAnswer::Unbounded { x, .. } if huge(x) => {
+                    out.tag("ill-conditioned-model-skipped");
+                    continue;
+                }
+                _ => {}
+            }
+            if let LpAnswer::Unbounded { ray, .. } = &truth {
+                let (mut slope, mut cn, mut dn) = (zero(), zero(), zero());
+                for (c, d) in lp.c.iter().zip(ray) {
+                    slope += c * d;
+                    cn += c.abs();
+                    dn += d.abs();
+                }
+                if slope.abs() <= pow10_neg(9) * &cn * &dn {
+                    out.tag("ill-conditioned-model-skipped");
+                    continue;
+                }
+            }
             let tkind = truth.kind();
             out.tag(&format!("truth:{tkind}"));
             out.tag(&format!("origin:{origin}"));
@@ -382,7 +404,14 @@ impl Driver for C15 {
                                 (LpAnswer::Optimal { value, .. }, SolutionStatus::Optimal) => {
                                     let got = q(sol.value).unwrap();
                                     let gap = s.gap.unwrap_or(0.0);
-                                    let allowed = q(gap).unwrap() * qmax(&one(), &got.abs()) + &tol * qmax(&one(), &value.abs());
+                                    // relative to the larger of the returned and the true objective, with and without
+                                    // the constant offset (the back end does not see the offset)
+                                    let off = q(lm.objective_offset()).unwrap_or_else(zero);
+                                    let mut denom = qmax(&one(), &got.abs());
+                                    for v in [value.abs(), (&got - &off).abs(), (value - &off).abs()] {
+                                        denom = qmax(&denom, &v);
+                                    }
+                                    let allowed = q(gap).unwrap() * denom + &tol * qmax(&one(), &value.abs());
                                     let worse_by = if lp.maximize { value - &got } else { &got - value };
                                     if xl.sense == rooc::OptimizationType::Satisfy || worse_by <= allowed {
                                         out.tag("optimal-label-within-gap");
@@ -483,7 +512,7 @@ impl Driver for C15 {
         Some((format!("never-returns({};{lim})", c.kind), format!("the call did not return: worker ended with {} ({lim})", c.kind)))
     }
     fn rule(&self) -> String {
-        "small MILP models (knapsack / covering models of 5-12 Boolean, integer and bounded continuous variables with 1-3 capacity rows and an optional equality, which need a real branch-and-bound search; plus G-lp models incl. infeasible, unbounded and continuous ones). Each model is first solved without limits (median of three timings); then ~57 settings: door (solve_milp_lp_problem_with, the Microlp solver object, ModelBuilder::solve_with(Microlp..) with handle read-back) x time limit (none, 0, 0.2%..85% of the unlimited time, 1.2x..50x, Duration::MAX) x MIP gap (none, 0, -0, 1e-9, 0.01, 0.1, 0.5, 10; invalid: -0.1, NaN, +inf, -inf, -1e-300). Oracle per outcome: a returned solution must pass the exact certificate (bounds, integrality, rows within 1e-6, value = c.x); label Optimal requires the objective within gap*max(1,|value|) + 1e-6 of the certified exact optimum; label Feasible only requires feasibility; Infeasible/Unbounded must match the certified verdict; any other error is accepted only when a finite time limit was set; invalid gaps must give an error. A replay repeats the recorded setting up to 300 times because the landing point of a time limit is timing dependent. non-trivial = distinct (model, setting) judged".into()
+        "small MILP models (knapsack / covering models of 5-12 Boolean, integer and bounded continuous variables with 1-3 capacity rows and an optional equality, which need a real branch-and-bound search; plus G-lp models incl. infeasible, unbounded and continuous ones). Each model is first solved without limits (median of three timings); then ~57 settings: door (solve_milp_lp_problem_with, the Microlp solver object, ModelBuilder::solve_with(Microlp..) with handle read-back) x time limit (none, 0, 0.2%..85% of the unlimited time, 1.2x..50x, Duration::MAX) x MIP gap (none, 0, -0, 1e-9, 0.01, 0.1, 0.5, 10; invalid: -0.1, NaN, +inf, -inf, -1e-300). Oracle per outcome: a returned solution must pass the exact certificate (bounds, integrality, rows within 1e-6, value = c.x); label Optimal requires the objective within gap*max(1,|returned|,|optimum|, the same without the offset) + 1e-6 of the certified exact optimum; models whose exact answer lies beyond 1e6 or on a ray with rounding-level slope are skipped; label Feasible only requires feasibility; Infeasible/Unbounded must match the certified verdict; any other error is accepted only when a finite time limit was set; invalid gaps must give an error. A replay repeats the recorded setting up to 300 times because the landing point of a time limit is timing dependent. non-trivial = distinct (model, setting) judged".into()
     }
     fn thresholds(&self, tier: Tier) -> Thresholds {
         let s = tier.pick(1, 25);
